@@ -162,7 +162,7 @@ func Ev(ctx context.Context, kind string, args ...any) {
 		perturb()
 	}
 	ss := make([]string, 0, len(args)+1)
-	if a.deferred && (kind == "cmdStart" || kind == "cmdEnd") {
+	if a.deferred && (kind == "cmdStart" || kind == "cmdEnd" || kind == "callRelease") {
 		ss = append(ss, "deferred")
 	}
 	for _, x := range args {
